@@ -420,7 +420,11 @@ def rule_move_file(ctx, p, cfg, rid="R5"):
     with ctx.rule(rid, "move_file contract", cfg) as r:
         ro = roles(p)
         m = p.fn_threaded(ro["move_file"].path)     # `let failed = match rename(..) { Ok => false, Err(e) => e.kind() != NotFound }; if !failed { return Ok(()) }` is the same match
-        rn = m.call1("std::fs::rename", "fs::rename")
+        rns = [c for c in m.calls("std::fs::rename")]
+        firsts = [c for c in rns if deep_strip(c.arg(0)) == ("param", 1)]
+        if len(firsts) != 1:
+            raise AnchorMissing("%s: expected exactly one fs::rename of the source, found %d" % (m.path, len(firsts)))
+        rn = firsts[0]
         r.require(deep_strip(rn.arg(0)) == ("param", 1) and deep_strip(rn.arg(1)) == ("param", 2), "rename-src-dst", fn=m, site=rn.at, detail="rename(%s, %s)" % (show(rn.arg(0)), show(rn.arg(1))))
         for c in m.calls():
             if c.callee in ("std::fs::copy", "std::fs::remove_file"):
@@ -457,6 +461,19 @@ def rule_move_file(ctx, p, cfg, rid="R5"):
                       detail="NotFound => Ok without copy (missing intermediate archives are fine)")
             tr = [e for b, e in q.ret_assignments(m) if b in m.reach(tt, include_src=True) and b not in m.reach(ft, include_src=True)]
             r.require(cp[0].block in m.reach(ft, include_src=True), "other-errors-fall-back-to-copy", fn=m, detail="any other rename error falls back to copy")
+        # a move: on every success path the source is gone from its old name - renamed, found missing, or removed after the copy
+        gone = {x.block for x in m.calls("std::fs::remove_file") if deep_strip(x.arg(0)) == ("param", 1)}
+        for k in m.calls(lambda n: n in ("core::result::Result::<T, E>::and_then", "core::result::Result::<T, E>::map")):
+            # copy(..).and_then(|_| remove_file(src)): the removal runs inside the combinator, on the copy's success
+            for y in walk(k.arg(1)):
+                if y[0] == "closure" and y[1] in p.fns and p.fns[y[1]].calls("std::fs::remove_file"):
+                    gone.add(k.block)
+        okrets = {b for b, e in q.ret_assignments(m) if q.classify_ret(e) != "err" and not q.is_from_residual(e)}
+        if nf_sw is not None:
+            fb = nf_sw.target_of(not nf_eq)       # the rename failed for another reason: the fallback starts here
+            left = q.skipping_paths(m, fb, gone, okrets) if fb is not None else okrets
+            r.require(not left, "source-gone-on-every-success-path", fn=m, detail="from the fallback every non-error return has passed remove_file(src)",
+                      fail_detail="move_file can report success (bb%s) with the source still in place: the fallback copies it and never removes it, so the 'moved' file is still the active log and the next record is appended to the old content" % sorted(left))
         if cp:
             c = cp[0]
             r.require(deep_strip(c.arg(0)) == ("param", 1) and deep_strip(c.arg(1)) == ("param", 2), "copy-src-dst", fn=m, site=c.at, detail="copy(src, dst)")
@@ -508,6 +525,14 @@ def rule_one_rotation_at_a_time(ctx, p, cfg, rid="R14"):
         r.require(bool(low) and any(f.dominates(b, sp[0].block) for b in low), "flag-lowered-before-the-worker-is-spawned", fn=f, site=sp[0].at,
                   detail="roll() stores `false` through the guard on every path to thread::spawn",
                   fail_detail="roll() does not lower the ready flag itself before spawning: a second roll arriving before the worker has taken the lock finds the flag still raised and queues a second worker; the two can run in either order")
+        # .. and whoever lowered it has spawned the worker that raises it again: no return of roll() between the two (an error
+        # return there leaves the flag lowered for good, and the next roll waits for ever while holding the appender's lock)
+        rets_ = set(f.return_blocks())
+        stuck = set()
+        for b_ in low:
+            stuck |= q.skipping_paths(f, b_, {sp[0].block}, rets_)
+        r.require(not stuck, "lowered-flag-always-handed-to-a-worker", fn=f, detail="every return of roll() after the flag was lowered has passed thread::spawn",
+                  fail_detail="roll() can return (bb%s) after lowering the ready flag without spawning the worker that raises it: the next roll blocks for ever" % sorted(stuck))
         waits = [c for c in f.calls() if (c.callee or "").rsplit("::", 1)[-1] in ("wait", "wait_while", "wait_for", "wait_until")]
         r.require(bool(waits) and all(f.can_reach(c.block, sp[0].block) for c in waits), "waits-for-the-previous-rotation", fn=f, detail="Condvar wait sites before the spawn: %d" % len(waits))
         clos = [g for g in p.fns.values() if g.d.get("closure_of") == f.path and any((c.callee or "") == roles(p)["rotate"].path for c in g.calls())]
